@@ -29,7 +29,7 @@ pub static DEF: CheckDef = CheckDef {
            leaf probed with Vec::from (must not panic) - whole case bracketed by the allocation ledger; history: C10 \
            histories (builds, passes on any node, clears, toggles, drops) followed by dropping every result and \
            probing every leaf; training: Model loops (dense / conv stacks, 3..12 iterations, thorough up to 30) - \
-           ledger equal at consecutive iteration boundaries and the previous iteration's input is sole owner of its \
+           ledger equal at consecutive iteration boundaries and the previous iteration's input and target (also after evaluation-only iterations without update, and after the model is dropped while layers, optimizer and cost closure live on) are sole owners of their \
            buffer after the next forward. Non-trivial = at least one pass ran and at least one tracked leaf was \
            probed; distinct = distinct (program/history text, drop order class).",
     floors,
@@ -380,9 +380,10 @@ fn run_training(ctx: &mut Ctx, r: &mut Rng) {
             ctx.sample(if spec.is_conv() { "training-conv" } else { "training-dense" }, || format!("{} ledger (blocks,bytes) at iteration boundaries: {:?}", desc, &t.boundaries[..t.boundaries.len().min(6)]));
             ctx.count("training_input_probes", t.input_probes);
             for (it, m) in &t.input_probe_failures {
+                let what = if m.starts_with("target") { "target" } else { "input" };
                 ctx.violation(
-                    "C18|training|previous-input-still-referenced",
-                    format!("after iteration {}'s forward pass, the input of iteration {} is still referenced ({})\n{}", it + 1, it, m, desc),
+                    &format!("C18|training|previous-{}-still-referenced", what),
+                    format!("once the model has moved on (next forward pass, or the model dropped), the {} of iteration {} is still referenced ({})\n{}", what, it, m, desc),
                 );
             }
             if ledger::ENABLED {
